@@ -15,6 +15,10 @@
 //!     9 gleave  a=group b=member id
 //!    10 glen    a=group                    -> len
 //!    11 gcall   a=group(1) b=id c=behaviour-> status
+//!    12 spawn whose pre_start is held open by the harness (fields as 1) -> 1 reserved+pending, 2 NameTaken
+//!    13 finish a=actor: pre_start goes on, the spawn future is awaited      -> 1 / 3
+//!    14 a=call number b=actor: wait for that call's answer (1/4/9), only then let post_stop of b go on
+//!               (spawn flag bit6: post_stop waits for that signal)
 //!   behaviours: 0 ok 1 fail 2 gate 3 stop-self 4 no-reply 5 yield 6 sleep
 //!   end_mode 0: release every gate, stop every actor in index order; 1: Cluster::join at once.
 //!   out: op results; n_actors; per actor (n_trace; trace*; fin); n_calls; call results
@@ -26,6 +30,12 @@
 //! kind 3 (concurrent process group; oracle only)
 //!   case: [3; workers; n_actors; (cap prestopped)*; T; (n_ops; (code x)*)*]  code 1 join x, 2 leave, 3 send x
 //!   out:  [n_msgs; (id result times_handled)*; group_len; held_open; held_total]
+//!
+//! kind 5 (concurrent; oracle only): post_stop waits for the callers of the calls that were queued
+//!   case: [5; workers; capacity; T]  T threads call while the actor is stuck in a gated handler;
+//!         stop(); the gate opens; every caller reports after its call returned; post_stop waits
+//!         for all T reports.  A deadlock (no exit within the watchdog) is the failure.
+//!   out:  [exit (1 stopped, 2 failed, 9 never); (call result)*T]
 //!
 //! kind 4 (forced schedule of the window between the receiver's drain and its disconnection,
 //!         through the cfg(compio_verif) scheduling points of compio_actor::verif)
@@ -65,12 +75,17 @@ struct Shared {
     done: AtomicBool,          // post_stop finished or pre_start failed
     pre_gate: Mutex<Option<oneshot::Receiver<()>>>,
     handled: Mutex<Vec<u64>>,  // kind 3
+    ps_gate: Mutex<Option<oneshot::Receiver<()>>>, // flag 64: post_stop waits for this
+    ps_waiting: AtomicBool,
+    ps_opened: AtomicBool,     // set by the harness before it signals
+    ps_need: AtomicU64,        // kind 5: post_stop waits until that many callers are done
 }
 
 struct World {
     activity: AtomicU64,
     events: Mutex<Vec<[u64; 3]>>, // kind 2 log
     kind: u64,
+    callers_done: AtomicU64, // kind 5
 }
 
 impl World {
@@ -186,6 +201,22 @@ impl<const I: usize> Actor for TActor<I> {
         self.hook(3, 2)
     }
     async fn post_stop(&self, _me: &Mailbox<Self>, _s: &mut ()) -> Result<(), u64> {
+        // the mailbox is closed by now: the callers of calls that were still queued have their
+        // error, so post_stop may wait for them
+        let g = self.sh.ps_gate.lock().unwrap().take();
+        if let Some(rx) = g {
+            self.world.activity.fetch_add(1, Ordering::SeqCst);
+            self.sh.ps_waiting.store(true, Ordering::SeqCst);
+            rx.await.ok();
+            self.sh.ps_waiting.store(false, Ordering::SeqCst);
+        }
+        let need = self.sh.ps_need.load(Ordering::SeqCst);
+        if need > 0 {
+            let t0 = Instant::now();
+            while self.world.callers_done.load(Ordering::SeqCst) < need && t0.elapsed() < Duration::from_secs(20) {
+                compio_runtime::time::sleep(Duration::from_micros(200)).await;
+            }
+        }
         let r = self.hook(4, 3);
         self.sh.done.store(true, Ordering::SeqCst);
         r
@@ -275,6 +306,30 @@ struct ARef {
     name: u64,
     dropped: bool,
     gate_tx: Option<oneshot::Sender<()>>, // an accepted gate message not yet released
+    pre_tx: Option<oneshot::Sender<()>>,  // opens the gated pre_start
+    ps_tx: Option<oneshot::Sender<()>>,   // lets post_stop go on
+    pending: Option<std::pin::Pin<Box<dyn std::future::Future<Output = Filled>>>>,
+}
+
+/// what a finished spawn future yields, type-erased
+struct Filled {
+    mb: Option<AnyMb>,
+    plain: Option<Broker<Plain>>,
+    ask: Option<Broker<Call<Ask, u64>>>,
+    ping: Option<Broker<Call<Ping, ()>>>,
+    handle: Option<ActorHandle<u64>>,
+    res: u64,
+}
+
+impl ARef {
+    fn fill(&mut self, f: Filled) {
+        self.mb = f.mb;
+        self.plain = f.plain;
+        self.ask = f.ask;
+        self.ping = f.ping;
+        self.handle = f.handle;
+        self.res = f.res;
+    }
 }
 
 impl ARef {
@@ -329,6 +384,10 @@ fn new_shared() -> Arc<Shared> {
         done: AtomicBool::new(false),
         pre_gate: Mutex::new(None),
         handled: Mutex::new(Vec::new()),
+        ps_gate: Mutex::new(None),
+        ps_waiting: AtomicBool::new(false),
+        ps_opened: AtomicBool::new(false),
+        ps_need: AtomicU64::new(0),
     })
 }
 
@@ -339,6 +398,7 @@ async fn spawn_typed<const I: usize>(
     cap: u64,
     flags: u64,
     sup: Option<&AnyMb>,
+    gated: bool,
 ) -> ARef
 where
     W: Wrap<I>,
@@ -346,10 +406,16 @@ where
     let sh = new_shared();
     let dropped = flags & 32 != 0;
     let mut go_tx = None;
-    if dropped {
+    if dropped || gated {
         let (tx, rx) = oneshot::channel();
         *sh.pre_gate.lock().unwrap() = Some(rx);
         go_tx = Some(tx);
+    }
+    let mut ps_tx = None;
+    if flags & 64 != 0 {
+        let (tx, rx) = oneshot::channel();
+        *sh.ps_gate.lock().unwrap() = Some(rx);
+        ps_tx = Some(tx);
     }
     let (sh2, w2) = (sh.clone(), world.clone());
     let mut b = cluster
@@ -373,6 +439,9 @@ where
         name,
         dropped,
         gate_tx: None,
+        pre_tx: None,
+        ps_tx,
+        pending: None,
     };
     let fut = std::future::IntoFuture::into_future(b);
     if dropped {
@@ -391,19 +460,35 @@ where
         r.res = 5;
         return r;
     }
-    match fut.await {
-        Ok((mb, h)) => {
-            r.plain = Some(mb.broker());
-            r.ask = Some(mb.broker());
-            r.ping = Some(mb.broker());
-            r.mb = Some(<W as Wrap<I>>::wrap(mb));
-            r.handle = Some(h);
-            r.res = 1;
+    let mut boxed: std::pin::Pin<Box<dyn std::future::Future<Output = Filled>>> = Box::pin(async move {
+        let none = |res| Filled { mb: None, plain: None, ask: None, ping: None, handle: None, res };
+        match fut.await {
+            Ok((mb, h)) => Filled {
+                plain: Some(mb.broker()),
+                ask: Some(mb.broker()),
+                ping: Some(mb.broker()),
+                mb: Some(<W as Wrap<I>>::wrap(mb)),
+                handle: Some(h),
+                res: 1,
+            },
+            Err(SpawnError::NameTaken(_)) => none(2),
+            Err(SpawnError::Start(_)) => none(3),
+            Err(_) => none(4),
         }
-        Err(SpawnError::NameTaken(_)) => r.res = 2,
-        Err(SpawnError::Start(_)) => r.res = 3,
-        Err(_) => r.res = 4,
+    });
+    if gated {
+        // the name is reserved (or refused) by the first poll; pre_start waits for the harness
+        match futures_util::poll!(&mut boxed) {
+            std::task::Poll::Ready(f) => r.fill(f),
+            std::task::Poll::Pending => {
+                r.pending = Some(boxed);
+                r.pre_tx = go_tx;
+            }
+        }
+        return r;
     }
+    let f = boxed.await;
+    r.fill(f);
     r
 }
 
@@ -438,17 +523,29 @@ fn exit_code(r: Result<ActorExit<u64>, compio_actor::actor::ActorHandleError>) -
     }
 }
 
+fn ps_blocked(a: &ARef) -> bool {
+    a.sh.ps_waiting.load(Ordering::SeqCst) && !a.sh.ps_opened.load(Ordering::SeqCst)
+}
+
+fn ps_open(a: &mut ARef) {
+    a.sh.ps_opened.store(true, Ordering::SeqCst);
+    a.ps_tx.take().map(|t| t.send(()).ok());
+}
+
 /// waits until actor i cannot move without outside help
 async fn settle(world: &World, cluster: &Cluster, a: &mut ARef, deadline: Instant) -> Result<(), Hang> {
     loop {
         if Instant::now() > deadline {
             return Err(Hang);
         }
-        if a.fin.is_some() || a.res == 2 || a.res == 4 || a.res == 6 {
+        if a.fin.is_some() || a.res == 2 || a.res == 4 || a.res == 6 || a.pending.is_some() {
             return Ok(());
         }
         if a.res == 3 || a.dropped {
             // no handle: wait for the hooks to end and the name to be free again
+            if ps_blocked(a) {
+                return Ok(());
+            }
             if !a.sh.done.load(Ordering::SeqCst) {
                 compio_runtime::time::sleep(Duration::from_micros(100)).await;
                 continue;
@@ -473,7 +570,7 @@ async fn settle(world: &World, cluster: &Cluster, a: &mut ARef, deadline: Instan
                 return Ok(());
             }
         }
-        if a.sh.gated.load(Ordering::SeqCst) {
+        if a.sh.gated.load(Ordering::SeqCst) || ps_blocked(a) {
             return Ok(());
         }
         if a.gate_tx.is_some() {
@@ -490,16 +587,8 @@ async fn settle(world: &World, cluster: &Cluster, a: &mut ARef, deadline: Instan
                 compio_runtime::time::sleep(Duration::from_micros(50)).await;
             }
             Ok(Err(_)) => {
-                // closed or dropped unanswered: the actor is on its way out
-                let h = a.handle.take().unwrap();
-                match compio_runtime::time::timeout(WATCHDOG, h).await {
-                    Err(_) => return Err(Hang),
-                    Ok(r) => {
-                        a.fin = Some(exit_code(r));
-                        world.activity.fetch_add(1, Ordering::SeqCst);
-                        return Ok(());
-                    }
-                }
+                // closed or dropped unanswered: the actor is on its way out (or waits in post_stop)
+                compio_runtime::time::sleep(Duration::from_micros(100)).await;
             }
         }
     }
@@ -556,6 +645,7 @@ fn run_kind1(c: &mut Case) -> Result<Vec<u64>, BadCase> {
             activity: AtomicU64::new(0),
             events: Mutex::new(Vec::new()),
             kind: 1,
+            callers_done: AtomicU64::new(0),
         });
         let cluster = mk_cluster(workers);
         let mut acts: Vec<ARef> = Vec::new();
@@ -578,7 +668,7 @@ fn run_kind1(c: &mut Case) -> Result<Vec<u64>, BadCase> {
         for o in ops {
             let [code, a, b, cc, d] = o;
             match code {
-                1 => {
+                1 | 12 => {
                     if b == 0 || b > 64 {
                         return Err(BadCase);
                     }
@@ -593,11 +683,11 @@ fn run_kind1(c: &mut Case) -> Result<Vec<u64>, BadCase> {
                     };
                     macro_rules! sp {
                         ($($i:literal),*) => {
-                            match idx { $($i => spawn_typed::<$i>(&cluster, &world, a, b, cc, sup).await,)* _ => return Err(BadCase) }
+                            match idx { $($i => spawn_typed::<$i>(&cluster, &world, a, b, cc & 127, sup, code == 12).await,)* _ => return Err(BadCase) }
                         };
                     }
                     let r = sp!(0, 1, 2, 3, 4, 5);
-                    out.push(r.res);
+                    out.push(if r.pending.is_some() { 1 } else { r.res });
                     acts.push(r);
                 }
                 2 | 3 => {
@@ -736,13 +826,59 @@ fn run_kind1(c: &mut Case) -> Result<Vec<u64>, BadCase> {
                         }
                     }
                 }
+                13 => {
+                    let Some(ar) = acts.get_mut(a as usize) else { return Err(BadCase) };
+                    match ar.pending.take() {
+                        Some(fut) => {
+                            ar.pre_tx.take().map(|t| t.send(()).ok());
+                            match compio_runtime::time::timeout(WATCHDOG, fut).await {
+                                Err(_) => return Ok(Err(Hang)),
+                                Ok(f) => ar.fill(f),
+                            }
+                            out.push(ar.res);
+                        }
+                        None => out.push(0),
+                    }
+                }
+                14 => {
+                    // the caller of call number a waits for its answer; only then it lets
+                    // post_stop of actor b go on
+                    let r = match calls.get_mut(a as usize) {
+                        Some(pc) => {
+                            if let Some(f) = pc.fut.take() {
+                                pc.result = match compio_runtime::time::timeout(Duration::from_millis(1500), f).await {
+                                    Err(_) => 9,
+                                    Ok(Ok(_)) => 1,
+                                    Ok(Err(s)) => s,
+                                };
+                            }
+                            pc.result
+                        }
+                        None => 0,
+                    };
+                    out.push(r);
+                    if let Some(ar) = acts.get_mut(b as usize) {
+                        ps_open(ar);
+                    }
+                }
                 _ => return Err(BadCase),
             }
             hang!(settle_all(&world, &cluster, &mut acts).await);
         }
         // the end of the program
         if end_mode == 0 {
+            for i in 0..acts.len() {
+                if let Some(fut) = acts[i].pending.take() {
+                    acts[i].pre_tx.take().map(|t| t.send(()).ok());
+                    match compio_runtime::time::timeout(WATCHDOG, fut).await {
+                        Err(_) => return Ok(Err(Hang)),
+                        Ok(f) => acts[i].fill(f),
+                    }
+                    hang!(settle_all(&world, &cluster, &mut acts).await);
+                }
+            }
             for ar in acts.iter_mut() {
+                ps_open(ar);
                 if ar.sh.gated.load(Ordering::SeqCst) {
                     ar.sh.gated.store(false, Ordering::SeqCst);
                 }
@@ -763,6 +899,17 @@ fn run_kind1(c: &mut Case) -> Result<Vec<u64>, BadCase> {
                 return Ok(Err(Hang));
             }
             for ar in acts.iter_mut() {
+                if let Some(fut) = ar.pending.take() {
+                    // the task was dropped inside pre_start: the spawner is told the worker stopped
+                    match compio_runtime::time::timeout(WATCHDOG, fut).await {
+                        Err(_) => return Ok(Err(Hang)),
+                        Ok(f) => {
+                            ar.res = if f.res == 4 { 0 } else { f.res };
+                            ar.fin = Some(if f.res == 4 { 4 } else { 7 });
+                        }
+                    }
+                    continue;
+                }
                 if let Some(h) = ar.handle.take() {
                     match compio_runtime::time::timeout(WATCHDOG, h).await {
                         Err(_) => return Ok(Err(Hang)),
@@ -834,9 +981,10 @@ fn run_kind2(c: &mut Case) -> Result<Vec<u64>, BadCase> {
             activity: AtomicU64::new(0),
             events: Mutex::new(Vec::new()),
             kind: 2,
+            callers_done: AtomicU64::new(0),
         });
         let cluster = mk_cluster(workers);
-        let a = spawn_typed::<0>(&cluster, &world, 0, cap, flags & 15, None).await;
+        let a = spawn_typed::<0>(&cluster, &world, 0, cap, flags & 15, None, false).await;
         if a.res != 1 {
             // start-up failed: only the hook events exist
             cluster.join().await.ok();
@@ -957,13 +1105,14 @@ fn run_kind3(c: &mut Case) -> Result<Vec<u64>, BadCase> {
             activity: AtomicU64::new(0),
             events: Mutex::new(Vec::new()),
             kind: 3,
+            callers_done: AtomicU64::new(0),
         });
         let cluster = mk_cluster(workers);
         let mut acts = Vec::new();
         for (i, (cap, _)) in specs.iter().enumerate() {
             macro_rules! sp {
                 ($($i:literal),*) => {
-                    match i { $($i => spawn_typed::<$i>(&cluster, &world, 0, *cap, 0, None).await,)* _ => unreachable!() }
+                    match i { $($i => spawn_typed::<$i>(&cluster, &world, 0, *cap, 0, None, false).await,)* _ => unreachable!() }
                 };
             }
             acts.push(sp!(0, 1, 2, 3));
@@ -1063,9 +1212,10 @@ fn run_kind4(c: &mut Case) -> Result<Vec<u64>, BadCase> {
             activity: AtomicU64::new(0),
             events: Mutex::new(Vec::new()),
             kind: 1,
+            callers_done: AtomicU64::new(0),
         });
         let cluster = mk_cluster(1);
-        let a = spawn_typed::<0>(&cluster, &world, 0, 2, 0, None).await;
+        let a = spawn_typed::<0>(&cluster, &world, 0, 2, 0, None, false).await;
         let Some(AnyMb::M0(mb)) = a.mb else { unreachable!() };
         let wait_for = |f: &dyn Fn() -> bool| {
             let t0 = Instant::now();
@@ -1144,6 +1294,85 @@ fn run_kind4(c: &mut Case) -> Result<Vec<u64>, BadCase> {
     Ok(out)
 }
 
+fn run_kind5(c: &mut Case) -> Result<Vec<u64>, BadCase> {
+    let workers = c.take()?;
+    let cap = c.take()?;
+    let t = c.take()? as usize;
+    if cap == 0 || cap > 64 || t == 0 || t > 4 || c.i != c.v.len() {
+        return Err(BadCase);
+    }
+    let rt = compio_runtime::Runtime::new().expect("runtime");
+    let out = rt.block_on(async move {
+        let world = Arc::new(World {
+            activity: AtomicU64::new(0),
+            events: Mutex::new(Vec::new()),
+            kind: 1,
+            callers_done: AtomicU64::new(0),
+        });
+        let cluster = mk_cluster(workers);
+        let mut a = spawn_typed::<0>(&cluster, &world, 0, cap, 0, None, false).await;
+        a.sh.ps_need.store(t as u64, Ordering::SeqCst);
+        let Some(AnyMb::M0(mb)) = a.mb.take() else { unreachable!() };
+        let (gtx, grx) = oneshot::channel();
+        mb.send(Plain { id: 1, beh: 2, gate: Some(grx) }).ok();
+        let t0 = Instant::now();
+        while !a.sh.gated.load(Ordering::SeqCst) && t0.elapsed() < WATCHDOG {
+            compio_runtime::time::sleep(Duration::from_micros(100)).await;
+        }
+        let results: Arc<Mutex<Vec<(usize, u64)>>> = Arc::new(Mutex::new(Vec::new()));
+        let mut ths = Vec::new();
+        for i in 0..t {
+            let (mb, world, results) = (mb.clone(), world.clone(), results.clone());
+            ths.push(std::thread::spawn(move || {
+                let rt = compio_runtime::Runtime::new().expect("runtime");
+                rt.block_on(async move {
+                    let r = compio_runtime::time::timeout(
+                        Duration::from_secs(8),
+                        mb.call(Ask { id: 2 + i as u64, beh: 0, gate: None }),
+                    )
+                    .await;
+                    let code = match r {
+                        Err(_) => 9,
+                        Ok(Ok(_)) => 1,
+                        Ok(Err(e)) => call_status(&e),
+                    };
+                    results.lock().unwrap().push((i, code));
+                    // only now, with its answer in hand, does the caller report
+                    world.callers_done.fetch_add(1, Ordering::SeqCst);
+                });
+            }));
+        }
+        // every caller has pushed its call or was refused
+        let queued = |mb: &Mailbox<TActor<0>>| {
+            let d = format!("{mb:?}");
+            d.split("queued: ").nth(1).and_then(|r| r.split(|ch: char| !ch.is_ascii_digit()).next().and_then(|n| n.parse::<u64>().ok())).unwrap_or(0)
+        };
+        let t0 = Instant::now();
+        while queued(&mb) + world.callers_done.load(Ordering::SeqCst) < t as u64 && t0.elapsed() < WATCHDOG {
+            compio_runtime::time::sleep(Duration::from_micros(100)).await;
+        }
+        mb.stop();
+        gtx.send(()).ok();
+        let exit = match compio_runtime::time::timeout(Duration::from_secs(10), a.handle.take().unwrap()).await {
+            Err(_) => 9,
+            Ok(r) => exit_code(r),
+        };
+        for th in ths {
+            while !th.is_finished() {
+                compio_runtime::time::sleep(Duration::from_micros(200)).await;
+            }
+            th.join().ok();
+        }
+        compio_runtime::time::timeout(WATCHDOG, cluster.join()).await.ok();
+        let mut res = results.lock().unwrap().clone();
+        res.sort();
+        let mut v = vec![exit];
+        v.extend(res.into_iter().map(|x| x.1));
+        v
+    });
+    Ok(out)
+}
+
 fn run(case: &[u64]) -> Result<Vec<u64>, BadCase> {
     let mut c = Case::new(case);
     match c.take()? {
@@ -1151,6 +1380,7 @@ fn run(case: &[u64]) -> Result<Vec<u64>, BadCase> {
         2 => run_kind2(&mut c),
         3 => run_kind3(&mut c),
         4 => run_kind4(&mut c),
+        5 => run_kind5(&mut c),
         _ => Err(BadCase),
     }
 }
